@@ -16,15 +16,16 @@ CLAIMED = {
             "Five structural clauses over the point-to-point channels: waiter-state transitions and transfer helpers only under the channel mutex; Timeout only behind a successful "
             "withdrawal; every payload write followed by a >=Release publish and every payload read preceded by a >=Acquire guard, with all ~200 sites on synchronisation fields at "
             "the required strength; batch errors carry the caller's items; single-endpoint handles are exclusive by type; the iterator given to resolve_run is bounded by the same `valid` count at all 5 sites. Multiset equality of sent/received values is not decided.", "§4 C01"),
-    "C03": ("edge-dominance of value-carrying commits by the admission predicate; must-held guard analysis",
+    "C03": ("edge-dominance of value-carrying commits by the admission predicate; must-held guard analysis; dominance order of payload read vs cursor/state writes in the lock-free rings",
             "Admission-gate shape at the 20 commit sites whose admission predicate is a call (mpsc-bounded credit, mpmc-bounded fullness under the lock, oneshot CAS, rendezvous pairing). "
+            "In the three lock-free bounded rings a slot is handed back (cursor/state write) only after its payload read, and always with a >=Release write. "
             "SPSC/SPMC index arithmetic and len()<=capacity as numbers are not decided.", "§4 C03"),
     "C04": ("interprocedural closed-gate dominance over every send/receive form and future, counter inc/dec pairing for Clone handles, data-flow of the closed flag through conversions, flag-won edge dominance in Drop/close, liveness-read -> re-drain -> Disconnected path rule",
             "Every operation of all 42 handle types (and the poll of every future holding a handle) consults that handle's closed flag; Clone handles are counted and the last-handle test "
             "is branched on; conversions carry the closed state; Drop/close act only when they won the flag; wherever a receive form decides Disconnected itself, every path from the last sender-liveness read passes another dequeue attempt (straggler re-drain).", "§4 C04"),
-    "C05": ("MIR CFG path rule (register -> barrier -> re-check -> park; lock-based variant via must-held guard analysis), SeqCst-fence-dominates-gate rule, publish=>notify must-follow rows",
+    "C05": ("MIR CFG path rule (register -> barrier -> re-check -> park; lock-based variant via must-held guard analysis), SeqCst-fence-dominates-gate rule, publish=>notify must-follow rows, close-path wake rule (Drop::drop -> close -> drop_* chain: wake on every path not excused by a closed/last-handle test)",
             "At every park site of fibre (an uncovered park site fails the check) the blocking protocol excludes the classic lost-wakeup window on every path; every notifier gate read follows a "
-            "SeqCst fence; every publishing event is followed by its notifier. Static rule verdicts, not a liveness proof.", "§4 C05"),
+            "SeqCst fence; every publishing event is followed by its notifier; closing the last handle of a side wakes the other side in all 92 close-path bodies. Static rule verdicts, not a liveness proof.", "§4 C05"),
     "C06": ("dominance of every Poll::Pending by a registration that consumes the current Context/waker; call-graph pairing of registration kinds with Drop withdrawals; wake-forwarding reachability",
             "All 58 hand-written Pending sites re-register the current waker; every future type whose registration is pointer-held or wake-metered withdraws it on Drop (and on forget-conversions); "
             "wake-one protocols forward a consumed wake (11 demonstrated known findings).", "§4 C06"),
@@ -32,8 +33,9 @@ CLAIMED = {
             "Single-producer exclusivity by type, publish order/strength of the broadcast ring, and cursor-list maintenance on clone/drop of receivers. Per-receiver delivery order is not decided.", "§4 C07"),
     "C08": ("the C04 rule instances restricted to the topic handles + call-graph reachability (publishing reaches no blocking primitive)",
             "Disconnect-protocol clauses on the four topic handle types and publish-never-waits. Routing by subscription history is not decided.", "§4 C08"),
-    "C09": ("field-set equality at mem::forget(self) (ptr::read multiset vs drop-glue fields), type selector + Drop reachability for payload owners, must-follow for reclaimed items",
-            "All 40 forget-conversions move each owning field exactly once; every payload-owning storage type drains on Drop; recovered items re-enter.", "§4 C09"),
+    "C09": ("field-set equality at mem::forget(self) (ptr::read multiset vs drop-glue fields), type selector + Drop reachability for payload owners, must-follow for reclaimed items, backward data-flow of slot indices (masked vs derived from the logical capacity)",
+            "All 40 forget-conversions move each owning field exactly once; every payload-owning storage type drains on Drop; recovered items re-enter; slot indices of rings with a physical mask "
+            "never derive unmasked from the logical capacity.", "§4 C09"),
     "C10": ("edge-dominance of guard construction by acquisition success, ordering floors on lock-word RMWs, park/Pending protocol path rule, must-held guard analysis in Drop of lock futures, impl/field-access facts, constant-mask agreement between announcers and wake gates",
             "Seven clauses over HybridMutex/HybridRwLock: guards only after acquisition, release strength, release-before-wake, queue-and-recheck before sleeping (sync and async), cancel-safe unlink "
             "and wake forwarding, ReadGuard has no DerefMut / node fields private to the wait queue / try_ variants cannot park, every wake-gate mask in unlock* intersects every announced sleeper mask.", "§4 C10"),
